@@ -224,4 +224,1206 @@ fn project_of(c: &Case, corpus: Option<&Corpus>) -> Project {
     Project { files, main: c.main.clone() }
 }
 
-// @@APPEND@@
+// ------------------------------------------------------------------------------------------------
+// worker process: one flushed result line per input
+
+#[repr(C)]
+struct RLimit {
+    cur: u64,
+    max: u64,
+}
+extern "C" {
+    fn setrlimit(resource: i32, rlim: *const RLimit) -> i32;
+}
+
+fn limit_memory() {
+    // RLIMIT_AS = 9 on Linux
+    let l = RLimit { cur: MEM_LIMIT, max: MEM_LIMIT };
+    unsafe {
+        setrlimit(9, &l);
+    }
+}
+
+enum Source {
+    Tok(&'static str, &'static [&'static str]),
+    Cases(Vec<Case>),
+}
+
+impl Source {
+    fn open(universe: &str, cases: &str) -> Source {
+        match universe {
+            "tok20" => Source::Tok("tok20", TOK20),
+            "tok31" => Source::Tok("tok31", TOK31),
+            _ => Source::Cases(read_ndjson(Path::new(cases))),
+        }
+    }
+    /// the record without events; `i` is the 1-based global index
+    fn head(&self, i: usize) -> Value {
+        match self {
+            Source::Tok(u, alpha) => {
+                json!({"id": format!("{}:{}", u, i), "u": u, "idx": i, "input": token_string_at(alpha, i), "kind": "tok"})
+            }
+            Source::Cases(v) => {
+                let c = &v[i - 1];
+                json!({"id": c.id, "u": "cases", "idx": i, "input": "", "kind": c.kind})
+            }
+        }
+    }
+    fn case(&self, i: usize) -> Case {
+        match self {
+            Source::Tok(u, alpha) => {
+                let mut files = BTreeMap::new();
+                files.insert("main.sy".to_string(), token_string_at(alpha, i));
+                Case {
+                    id: format!("{}:{}", u, i),
+                    kind: "tok".into(),
+                    base: String::new(),
+                    files,
+                    main: "main.sy".into(),
+                    no_std: true,
+                    corpus: false,
+                }
+            }
+            Source::Cases(v) => v[i - 1].clone(),
+        }
+    }
+    fn needs_corpus(&self) -> bool {
+        match self {
+            Source::Tok(..) => false,
+            Source::Cases(v) => v.iter().any(|c| c.corpus),
+        }
+    }
+}
+
+fn finish_record(mut head: Value, evs: Vec<Value>, pmsg: &str, ms: u128) -> Value {
+    head["ev"] = Value::Array(evs);
+    head["pmsg"] = json!(pmsg);
+    head["ms"] = json!(ms as u64);
+    head
+}
+
+fn worker(universe: &str, cases: &str, from: usize, to: usize, out: &str) {
+    limit_memory();
+    let src = Source::open(universe, cases);
+    let corpus = if src.needs_corpus() { Some(load_corpus()) } else { None };
+    let mut f = std::fs::OpenOptions::new().create(true).append(true).open(out).unwrap();
+    // optional self-test knobs (used only by the check's own isolation self-test)
+    let selftest = std::env::var("C07_SELFTEST").unwrap_or_default();
+    for i in from..=to {
+        let c = src.case(i);
+        if selftest == "hang" && c.id.ends_with(":7") {
+            loop {
+                std::thread::sleep(Duration::from_secs(1));
+            }
+        }
+        if selftest == "abort" && c.id.ends_with(":7") {
+            std::process::abort();
+        }
+        let t0 = Instant::now();
+        let p = project_of(&c, corpus.as_ref());
+        let (mut evs, pmsg, _) = observe(&p, c.no_std);
+        apply_stub(&c.id, &mut evs);
+        let rec = finish_record(src.head(i), evs, &pmsg, t0.elapsed().as_millis());
+        let mut line = serde_json::to_string(&rec).unwrap();
+        line.push('\n');
+        f.write_all(line.as_bytes()).unwrap();
+        f.flush().unwrap();
+    }
+}
+
+// ------------------------------------------------------------------------------------------------
+// parent: batches in child processes, stall watchdog, solitary re-run, abort detection
+
+struct Slot {
+    child: std::process::Child,
+    cur: usize, // next index whose line has not been seen
+    to: usize,
+    out: PathBuf,
+    offset: usize,
+    last_progress: Instant,
+    alone: bool,
+}
+
+struct RunStats {
+    suspected: usize,
+    timeouts: usize,
+    aborts: usize,
+    batches: usize,
+}
+
+fn spawn_worker(universe: &str, cases: &str, from: usize, to: usize, out: &Path) -> std::process::Child {
+    let exe = std::env::current_exe().unwrap();
+    let _ = std::fs::remove_file(out);
+    std::process::Command::new(exe)
+        .args(["worker", universe, cases, &from.to_string(), &to.to_string(), &out.to_string_lossy()])
+        .stdin(std::process::Stdio::null())
+        .stdout(std::process::Stdio::null())
+        .stderr(std::process::Stdio::null())
+        .spawn()
+        .unwrap_or_else(|e| tool_error(&format!("cannot spawn worker: {}", e)))
+}
+
+fn read_from(path: &Path, offset: usize) -> std::io::Result<Vec<u8>> {
+    use std::io::{Read, Seek, SeekFrom};
+    let mut f = std::fs::File::open(path)?;
+    f.seek(SeekFrom::Start(offset as u64))?;
+    let mut v = Vec::new();
+    f.read_to_end(&mut v)?;
+    Ok(v)
+}
+
+/// Runs indices first..=last of the universe; returns records in index order.
+fn run_isolated(universe: &str, cases: &str, first: usize, last: usize, scratch: &Path, batch: usize) -> (Vec<Value>, RunStats) {
+    let src = Source::open(universe, cases);
+    let n = last + 1 - first;
+    let mut results: Vec<Option<Value>> = (0..n).map(|_| None).collect();
+    let mut queue: std::collections::VecDeque<(usize, usize, bool)> = Default::default();
+    let mut a = first;
+    while a <= last {
+        let b = (a + batch - 1).min(last);
+        queue.push_back((a, b, false));
+        a = b + 1;
+    }
+    let nslots = vharness::pool::threads().max(1);
+    let mut slots: Vec<Option<Slot>> = (0..nslots).map(|_| None).collect();
+    let mut stats = RunStats { suspected: 0, timeouts: 0, aborts: 0, batches: 0 };
+    let _ = std::fs::create_dir_all(scratch);
+    let mut serial = 0usize;
+    loop {
+        let mut busy = false;
+        for s in 0..nslots {
+            if slots[s].is_none() {
+                if let Some((f, t, alone)) = queue.pop_front() {
+                    serial += 1;
+                    stats.batches += 1;
+                    let out = scratch.join(format!("w{}-{}.ndjson", s, serial));
+                    let child = spawn_worker(universe, cases, f, t, &out);
+                    slots[s] = Some(Slot { child, cur: f, to: t, out, offset: 0, last_progress: Instant::now(), alone });
+                }
+            }
+            let mut release = false;
+            if let Some(slot) = slots[s].as_mut() {
+                busy = true;
+                let exited = slot.child.try_wait().unwrap_or(None);
+                // read complete new lines
+                if let Ok(bytes) = read_from(&slot.out, slot.offset) {
+                    let base = slot.offset;
+                    let mut pos = 0usize;
+                    while let Some(nl) = bytes[pos..].iter().position(|b| *b == b'\n') {
+                        let line = &bytes[pos..pos + nl];
+                        pos += nl + 1;
+                        match serde_json::from_slice::<Value>(line) {
+                            Ok(v) => {
+                                results[slot.cur - first] = Some(v);
+                                slot.cur += 1;
+                                slot.last_progress = Instant::now();
+                            }
+                            Err(e) => tool_error(&format!("worker wrote bad json: {}", e)),
+                        }
+                    }
+                    slot.offset = base + pos;
+                }
+                if let Some(status) = exited {
+                    if slot.cur <= slot.to {
+                        if status.code() == Some(2) {
+                            tool_error("a worker reported a tool error");
+                        }
+                        // died on input `cur`: stack overflow, abort, allocation failure, kill
+                        use std::os::unix::process::ExitStatusExt;
+                        let why = format!("worker died: signal {:?} code {:?}", status.signal(), status.code());
+                        let evs = vec![ev("start", "-", 0, 0, "-"), ev("abort", "-", 0, 0, "-")];
+                        results[slot.cur - first] = Some(finish_record(src.head(slot.cur), evs, &why, 0));
+                        stats.aborts += 1;
+                        if slot.cur + 1 <= slot.to {
+                            queue.push_front((slot.cur + 1, slot.to, false));
+                        }
+                    }
+                    let _ = std::fs::remove_file(&slot.out);
+                    release = true;
+                } else {
+                    let budget = if slot.alone { ALONE_SECS } else { STALL_SECS };
+                    if slot.last_progress.elapsed() > Duration::from_secs(budget) {
+                        let _ = slot.child.kill();
+                        let _ = slot.child.wait();
+                        if slot.alone {
+                            let evs = vec![ev("start", "-", 0, 0, "-"), ev("timeout", "-", 0, 0, "-")];
+                            let why = format!("no result within {} s alone after a {} s stall in a batch", ALONE_SECS, STALL_SECS);
+                            results[slot.cur - first] = Some(finish_record(src.head(slot.cur), evs, &why, ALONE_SECS as u128 * 1000));
+                            stats.timeouts += 1;
+                        } else {
+                            stats.suspected += 1;
+                            if slot.cur + 1 <= slot.to {
+                                queue.push_front((slot.cur + 1, slot.to, false));
+                            }
+                            queue.push_front((slot.cur, slot.cur, true));
+                        }
+                        let _ = std::fs::remove_file(&slot.out);
+                        release = true;
+                    }
+                }
+            }
+            if release {
+                slots[s] = None;
+                busy = true;
+            }
+        }
+        if !busy && queue.is_empty() {
+            break;
+        }
+        std::thread::sleep(Duration::from_millis(15));
+    }
+    let recs: Vec<Value> = results
+        .into_iter()
+        .enumerate()
+        .map(|(k, r)| r.unwrap_or_else(|| tool_error(&format!("no result for index {}", first + k))))
+        .collect();
+    (recs, stats)
+}
+
+// ------------------------------------------------------------------------------------------------
+// token pieces of a text (boundaries from sylt_tokenizer spans)
+
+#[derive(Clone)]
+struct Piece {
+    gap: String, // blanks before the token
+    text: String,
+    tok: Token,
+    col: usize,
+}
+
+struct Pieces {
+    v: Vec<Piece>,
+    tail: String,
+}
+
+/// None if the spans do not tile the text (then the file is only used for char-level mutations).
+fn pieces(text: &str) -> Option<Pieces> {
+    let chars: Vec<(usize, char)> = text.char_indices().collect();
+    let n = chars.len();
+    let byte_of = |ci: usize| if ci < n { chars[ci].0 } else { text.len() };
+    let mut line_start = vec![0usize];
+    for (i, (_, c)) in chars.iter().enumerate() {
+        if *c == '\n' {
+            line_start.push(i + 1);
+        }
+    }
+    let mut v = Vec::new();
+    let mut prev_end = 0usize; // char index
+    for pt in string_to_tokens(0, text) {
+        if matches!(pt.token, Token::EOF) {
+            continue;
+        }
+        let s = pt.span;
+        if s.line_start == 0 || s.line_start > line_start.len() || s.line_end == 0 || s.line_end > line_start.len() {
+            return None;
+        }
+        let a = line_start[s.line_start - 1] + s.col_start.checked_sub(1)?;
+        let b = line_start[s.line_end - 1] + s.col_end.checked_sub(1)?;
+        if a < prev_end || b <= a || b > n {
+            return None;
+        }
+        v.push(Piece {
+            gap: text[byte_of(prev_end)..byte_of(a)].to_string(),
+            text: text[byte_of(a)..byte_of(b)].to_string(),
+            tok: pt.token,
+            col: s.col_start,
+        });
+        prev_end = b;
+    }
+    Some(Pieces { v, tail: text[byte_of(prev_end)..].to_string() })
+}
+
+fn join(ps: &[Piece]) -> String {
+    let mut s = String::new();
+    for p in ps {
+        s.push_str(&p.gap);
+        s.push_str(&p.text);
+    }
+    s
+}
+
+/// maximal number of simultaneously open brackets/blocks, by a token-level count (over-approximation)
+fn nesting(text: &str) -> usize {
+    let mut d: i64 = 0;
+    let mut m: i64 = 0;
+    for pt in string_to_tokens(0, text) {
+        match pt.token {
+            Token::LeftParen | Token::LeftBracket | Token::LeftBrace | Token::Do | Token::Enum => d += 1,
+            Token::RightParen | Token::RightBracket | Token::RightBrace | Token::End => d = (d - 1).max(0),
+            Token::Newline => {}
+            _ => {}
+        }
+        m = m.max(d);
+    }
+    m as usize
+}
+
+/// index ranges [a, b) of top-level statements: a token in column 1 that starts a definition, blob, enum or import
+fn top_level(ps: &[Piece]) -> Vec<(usize, usize)> {
+    let mut starts = Vec::new();
+    for (i, p) in ps.iter().enumerate() {
+        let at_line_start = p.col == 1 && (i == 0 || matches!(ps[i - 1].tok, Token::Newline | Token::Comment(_)));
+        if !at_line_start {
+            continue;
+        }
+        let is_start = match &p.tok {
+            Token::Identifier(_) => matches!(
+                ps.get(i + 1).map(|q| &q.tok),
+                Some(Token::ColonColon) | Some(Token::ColonEqual) | Some(Token::Colon)
+            ),
+            Token::Use | Token::From => true,
+            _ => false,
+        };
+        if is_start {
+            starts.push(i);
+        }
+    }
+    let mut out = Vec::new();
+    for (k, a) in starts.iter().enumerate() {
+        let b = if k + 1 < starts.len() { starts[k + 1] } else { ps.len() };
+        out.push((*a, b));
+    }
+    out
+}
+
+fn is_type_decl(ps: &[Piece], r: (usize, usize)) -> bool {
+    matches!(ps.get(r.0 + 2).map(|q| &q.tok), Some(Token::Blob) | Some(Token::Enum) | Some(Token::ExternBlob))
+}
+
+/// positions i such that tokens i-1, i are `do` NEWLINE inside a statement that has an `fn`/`pu` before the `do`
+fn body_points(ps: &[Piece], tl: &[(usize, usize)]) -> Vec<usize> {
+    let mut out = Vec::new();
+    for (a, b) in tl {
+        let mut seen_fn = false;
+        for i in *a..*b {
+            match ps[i].tok {
+                Token::Fn | Token::Pu => seen_fn = true,
+                Token::Newline if seen_fn && i > *a && matches!(ps[i - 1].tok, Token::Do) => out.push(i + 1),
+                _ => {}
+            }
+        }
+    }
+    out
+}
+
+/// single-line statements inside bodies: token ranges [a, b) covering one indented line with balanced brackets
+fn body_lines(ps: &[Piece]) -> Vec<(usize, usize)> {
+    let mut out = Vec::new();
+    let mut i = 0;
+    while i < ps.len() {
+        let mut j = i;
+        while j < ps.len() && !matches!(ps[j].tok, Token::Newline) {
+            j += 1;
+        }
+        if j > i && ps[i].col > 1 {
+            let mut bal: i64 = 0;
+            let mut ok = true;
+            for p in &ps[i..j] {
+                match p.tok {
+                    Token::LeftParen | Token::LeftBracket | Token::LeftBrace | Token::Do => bal += 1,
+                    Token::RightParen | Token::RightBracket | Token::RightBrace | Token::End => bal -= 1,
+                    Token::Else | Token::Elif => ok = false,
+                    _ => {}
+                }
+                if bal < 0 {
+                    ok = false;
+                }
+            }
+            if ok && bal == 0 {
+                out.push((i, (j + 1).min(ps.len())));
+            }
+        }
+        i = j + 1;
+    }
+    out
+}
+
+fn dedent(ps: &[Piece]) -> String {
+    let mut v = ps.to_vec();
+    if let Some(f) = v.first_mut() {
+        f.gap = String::new();
+    }
+    join(&v)
+}
+
+const GARBAGE: &[&str] = &[
+    "\"", "'", "\\", "\u{0}", "\t", "\r", "\r\n", "é", "日本", "\u{1F600}", "\u{202E}", "<<<<<<<", ">>>>>>>", "<<<<<<< HEAD\n",
+    "//", "/", "#", "$", "@", "`", "~", "^", "%", "&", ";", "0x", "1e", "1.e", "..", "...", "9999999999999999999999",
+    "1e999", "\u{FEFF}", "\u{2028}", "\u{7f}", "->->", "::::", "?", "!", "|", "<!>", "<=>",
+];
+
+// ------------------------------------------------------------------------------------------------
+// universe (ii): mutations of the corpus
+
+fn mk_case(id: String, kind: &str, base: &str, text: String) -> Case {
+    let mut files = BTreeMap::new();
+    files.insert(base.to_string(), text);
+    Case { id, kind: kind.to_string(), base: base.to_string(), files, main: base.to_string(), no_std: false, corpus: true }
+}
+
+const MUT_KINDS: &[&str] = &[
+    "truncate", "delete", "dup", "swap", "splice", "move-in", "copy-in", "move-out", "copy-out", "garbage", "cut-chars",
+    "ident-swap", "op-swap", "lit-swap", "line-delete", "line-dup", "stmt-delete", "stmt-dup",
+];
+
+fn gen_mutations(count: usize, corpus: &Corpus) -> Vec<Case> {
+    let names: Vec<&String> = corpus.files.keys().collect();
+    let parsed: Vec<Option<Pieces>> = names.iter().map(|n| pieces(&corpus.files[*n])).collect();
+    let usable: Vec<usize> = (0..names.len()).filter(|i| parsed[*i].as_ref().map(|p| p.v.len() >= 3).unwrap_or(false)).collect();
+    if usable.len() < 50 {
+        tool_error("token boundaries could not be recovered for most corpus files");
+    }
+    let mut out: Vec<Case> = Vec::new();
+    // systematic part: every type declaration copied into the first function body of its file
+    for &fi in &usable {
+        let ps = parsed[fi].as_ref().unwrap();
+        let tl = top_level(&ps.v);
+        let bps = body_points(&ps.v, &tl);
+        if bps.is_empty() {
+            continue;
+        }
+        for (k, r) in tl.iter().enumerate().filter(|(_, r)| is_type_decl(&ps.v, **r)).take(2) {
+            let bp = *bps.iter().find(|b| **b < r.0 || **b >= r.1).unwrap_or(&bps[0]);
+            let mut v: Vec<Piece> = ps.v[..bp].to_vec();
+            let mut ins = ps.v[r.0..r.1].to_vec();
+            ins[0].gap = "    ".into();
+            v.extend(ins);
+            v.extend(ps.v[bp..].to_vec());
+            let text = join(&v) + &ps.tail;
+            out.push(mk_case(format!("mut:copy-in-sys:{}:{}", names[fi], k), "copy-in", names[fi], text));
+        }
+    }
+    let mut rng = rand::rngs::StdRng::seed_from_u64(seed() ^ 0xC07);
+    let mut attempts = 0usize;
+    while out.len() < count && attempts < count * 20 {
+        attempts += 1;
+        let kind = MUT_KINDS[attempts % MUT_KINDS.len()];
+        let fi = usable[rng.gen_range(0..usable.len())];
+        let name = names[fi];
+        let src = &corpus.files[name];
+        let ps = parsed[fi].as_ref().unwrap();
+        let n = ps.v.len();
+        let tl = top_level(&ps.v);
+        let tag;
+        let text: String = match kind {
+            "truncate" => {
+                let k = rng.gen_range(1..n);
+                tag = format!("{}", k);
+                join(&ps.v[..k])
+            }
+            "delete" => {
+                let k = rng.gen_range(0..n);
+                tag = format!("{}", k);
+                let mut v = ps.v.clone();
+                v.remove(k);
+                join(&v) + &ps.tail
+            }
+            "dup" => {
+                let k = rng.gen_range(0..n);
+                tag = format!("{}", k);
+                let mut v = ps.v.clone();
+                let mut d = v[k].clone();
+                d.gap = " ".into();
+                v.insert(k + 1, d);
+                join(&v) + &ps.tail
+            }
+            "swap" => {
+                let k = rng.gen_range(0..n - 1);
+                tag = format!("{}", k);
+                let mut v = ps.v.clone();
+                let (a, b) = (v[k].text.clone(), v[k + 1].text.clone());
+                let (ta, tb) = (v[k].tok.clone(), v[k + 1].tok.clone());
+                v[k].text = b;
+                v[k].tok = tb;
+                v[k + 1].text = a;
+                v[k + 1].tok = ta;
+                join(&v) + &ps.tail
+            }
+            "splice" => {
+                let fj = usable[rng.gen_range(0..usable.len())];
+                let qs = parsed[fj].as_ref().unwrap();
+                let i = rng.gen_range(1..n);
+                let j = rng.gen_range(0..qs.v.len());
+                tag = format!("{}+{}@{}", i, names[fj], j);
+                join(&ps.v[..i]) + &join(&qs.v[j..]) + &qs.tail
+            }
+            "move-in" | "copy-in" => {
+                let bps = body_points(&ps.v, &tl);
+                if bps.is_empty() || tl.is_empty() {
+                    continue;
+                }
+                let r = tl[rng.gen_range(0..tl.len())];
+                let cands: Vec<usize> = bps.iter().cloned().filter(|b| *b < r.0 || *b >= r.1).collect();
+                if cands.is_empty() {
+                    continue;
+                }
+                let bp = cands[rng.gen_range(0..cands.len())];
+                tag = format!("{}@{}", r.0, bp);
+                let mut ins = ps.v[r.0..r.1].to_vec();
+                ins[0].gap = "    ".into();
+                let mut v: Vec<Piece> = Vec::new();
+                for (i, p) in ps.v.iter().enumerate() {
+                    if i == bp {
+                        v.extend(ins.clone());
+                    }
+                    if kind == "move-in" && i >= r.0 && i < r.1 {
+                        continue;
+                    }
+                    v.push(p.clone());
+                }
+                join(&v) + &ps.tail
+            }
+            "move-out" | "copy-out" => {
+                let bl = body_lines(&ps.v);
+                if bl.is_empty() {
+                    continue;
+                }
+                let r = bl[rng.gen_range(0..bl.len())];
+                tag = format!("{}", r.0);
+                let stmt = dedent(&ps.v[r.0..r.1]);
+                let mut v: Vec<Piece> = Vec::new();
+                for (i, p) in ps.v.iter().enumerate() {
+                    if kind == "move-out" && i >= r.0 && i < r.1 {
+                        continue;
+                    }
+                    v.push(p.clone());
+                }
+                // at the top level: in front of a random top-level statement, or at the end
+                if !tl.is_empty() && rng.gen_bool(0.5) {
+                    let at = tl[rng.gen_range(0..tl.len())].0;
+                    let at = if kind == "move-out" && at > r.0 { at - (r.1 - r.0).min(at) } else { at };
+                    let at = at.min(v.len());
+                    join(&v[..at]) + "\n" + &stmt + "\n" + &join(&v[at..]) + &ps.tail
+                } else {
+                    join(&v) + &ps.tail + "\n" + &stmt + "\n"
+                }
+            }
+            "garbage" => {
+                let k = rng.gen_range(0..=n);
+                let g = GARBAGE[rng.gen_range(0..GARBAGE.len())];
+                tag = format!("{}:{}", k, rng.gen_range(0..1000));
+                let glue = if rng.gen_bool(0.5) { " " } else { "" };
+                join(&ps.v[..k]) + glue + g + glue + &join(&ps.v[k..]) + &ps.tail
+            }
+            "ident-swap" | "op-swap" | "lit-swap" => {
+                // replace one token by another token of the same class taken from the same file (keeps the syntax
+                // mostly valid, so name resolution and the type checker see the damage)
+                let class = |t: &Token| -> u8 {
+                    match t {
+                        Token::Identifier(_) => 1,
+                        Token::Int(_) | Token::Float(_) | Token::String(_) | Token::Bool(_) | Token::Nil => 2,
+                        Token::Plus | Token::Minus | Token::Star | Token::Slash | Token::EqualEqual | Token::NotEqual
+                        | Token::Less | Token::LessEqual | Token::Greater | Token::GreaterEqual | Token::And | Token::Or
+                        | Token::AssertEqual | Token::Arrow | Token::Dot | Token::Equal | Token::ColonEqual
+                        | Token::ColonColon | Token::PlusEqual | Token::MinusEqual | Token::Colon | Token::Comma => 3,
+                        _ => 0,
+                    }
+                };
+                let want = match kind {
+                    "ident-swap" => 1,
+                    "lit-swap" => 2,
+                    _ => 3,
+                };
+                let idx: Vec<usize> = (0..n).filter(|i| class(&ps.v[*i].tok) == want).collect();
+                if idx.len() < 2 {
+                    continue;
+                }
+                let k = idx[rng.gen_range(0..idx.len())];
+                let o = idx[rng.gen_range(0..idx.len())];
+                if ps.v[k].text == ps.v[o].text {
+                    continue;
+                }
+                tag = format!("{}<-{}", k, o);
+                let mut v = ps.v.clone();
+                v[k].text = ps.v[o].text.clone();
+                v[k].tok = ps.v[o].tok.clone();
+                join(&v) + &ps.tail
+            }
+            "line-delete" | "line-dup" | "stmt-delete" | "stmt-dup" => {
+                let ranges: Vec<(usize, usize)> = if kind.starts_with("line") {
+                    let mut r = Vec::new();
+                    let mut a = 0;
+                    for (i, p) in ps.v.iter().enumerate() {
+                        if matches!(p.tok, Token::Newline) {
+                            if i > a {
+                                r.push((a, i + 1));
+                            }
+                            a = i + 1;
+                        }
+                    }
+                    r
+                } else {
+                    tl.clone()
+                };
+                if ranges.is_empty() {
+                    continue;
+                }
+                let r = ranges[rng.gen_range(0..ranges.len())];
+                tag = format!("{}", r.0);
+                let mut v: Vec<Piece> = ps.v[..r.0].to_vec();
+                if kind.ends_with("dup") {
+                    v.extend(ps.v[r.0..r.1].to_vec());
+                    v.extend(ps.v[r.0..r.1].to_vec());
+                }
+                v.extend(ps.v[r.1..].to_vec());
+                join(&v) + &ps.tail
+            }
+            _ => {
+                // cut-chars: truncate at an arbitrary character boundary (mid-token: unterminated strings, half operators)
+                let idx: Vec<usize> = src.char_indices().map(|(i, _)| i).collect();
+                let k = idx[rng.gen_range(0..idx.len())];
+                tag = format!("{}", k);
+                src[..k].to_string()
+            }
+        };
+        if nesting(&text) > MAX_DEPTH {
+            continue;
+        }
+        out.push(mk_case(format!("mut:{}:{}:{}", kind, name, tag), kind, name, text));
+    }
+    out
+}
+
+// ------------------------------------------------------------------------------------------------
+// universe (iii): multi-file projects served from memory
+
+/// (tag, text) of the main file; it may refer to modules b, c, sub/d, sub/ (exports) and to std names
+const MAINS: &[(&str, &str)] = &[
+    ("empty", ""),
+    ("comment-only", "// nothing\n"),
+    ("use-b", "use b\nstart :: fn do\n    x := b.x\nend\n"),
+    ("use-b-only", "use b\n"),
+    ("use-b-twice", "use b\nuse b\nstart :: fn do end\n"),
+    ("use-b-as-c", "use b as c\nstart :: fn do\n    y := c.x\nend\n"),
+    ("use-b-as-c-and-use-c", "use b as c\nuse c\nstart :: fn do\n    y := c.x\nend\n"),
+    ("use-root-b", "use /b\nstart :: fn do\n    y := b.x\nend\n"),
+    ("use-b-and-root-b", "use b\nuse /b as bb\nstart :: fn do\n    y := b.x + bb.x\nend\n"),
+    ("use-folder", "use sub/\nstart :: fn do\n    y := sub.x\nend\n"),
+    ("use-folder-and-exports", "use sub/\nuse sub/exports\nstart :: fn do end\n"),
+    ("use-sub-d", "use sub/d\nstart :: fn do\n    y := d.x\nend\n"),
+    ("use-root-alone", "use /\nstart :: fn do end\n"),
+    ("use-root-as", "use / as r\nstart :: fn do end\n"),
+    ("use-self", "use main\nx :: 1\nstart :: fn do\n    y := main.x\nend\n"),
+    ("from-b-use-x", "from b use x\nstart :: fn do\n    y := x\nend\n"),
+    ("from-b-use-missing", "from b use nope\nstart :: fn do\n    y := nope\nend\n"),
+    ("from-b-use-x-and-missing", "from b use (x, nope)\nstart :: fn do end\n"),
+    ("from-b-use-x-as-y", "from b use x as y\nstart :: fn do\n    z := y\nend\n"),
+    ("from-b-use-x-twice", "from b use x\nfrom b use x\nstart :: fn do end\n"),
+    ("from-b-and-c-use-x", "from b use x\nfrom c use x\nstart :: fn do end\n"),
+    ("from-b-use-type", "from b use A\nstart :: fn do\n    a := A { f: 1 }\nend\n"),
+    ("from-b-use-type-collide-blob", "from b use A\nA :: blob { g: int }\nstart :: fn do end\n"),
+    ("from-b-use-type-collide-enum", "from b use A\nA :: enum X, Y end\nstart :: fn do end\n"),
+    ("from-b-use-x-collide-def", "from b use x\nx :: 2\nstart :: fn do end\n"),
+    ("from-b-use-x-collide-var", "from b use x\nx := 2\nstart :: fn do end\n"),
+    ("from-b-use-x-as-collide", "from b use x as y\ny :: fn do end\nstart :: fn do end\n"),
+    ("use-b-collide-def", "use b\nb :: 1\nstart :: fn do end\n"),
+    ("use-b-collide-var", "b := 1\nuse b\nstart :: fn do end\n"),
+    ("use-b-collide-fn", "use b\nb :: fn do end\nstart :: fn do\n    b()\nend\n"),
+    ("use-b-as-start", "use b as start\n"),
+    ("use-b-missing-member", "use b\nstart :: fn do\n    y := b.nope\nend\n"),
+    ("use-b-missing-type", "use b\nstart :: fn do\n    y: b.Nope = 1\nend\n"),
+    ("use-b-type-ann", "use b\ny: b.A = b.A { f: 1 }\nstart :: fn do end\n"),
+    ("use-b-ns-as-value", "use b\nstart :: fn do\n    y := b\nend\n"),
+    ("use-b-ns-call", "use b\nstart :: fn do\n    b()\nend\n"),
+    ("use-b-ns-assign", "use b\nstart :: fn do\n    b = 1\nend\n"),
+    ("use-b-assign-const", "use b\nstart :: fn do\n    b.x = 2\nend\n"),
+    ("use-b-assign-var", "use b\nstart :: fn do\n    b.v = 2\nend\n"),
+    ("use-b-ns-of-ns", "use b\nstart :: fn do\n    y := b.c.x\nend\n"),
+    ("unknown-ns", "start :: fn do\n    y := nope.x\nend\n"),
+    ("unknown-ns-type", "y: nope.A = 1\nstart :: fn do end\n"),
+    ("use-inside-fn", "start :: fn do\n    use b\n    y := b.x\nend\n"),
+    ("from-inside-fn", "start :: fn do\n    from b use x\n    y := x\nend\n"),
+    ("use-std-list", "use list\nstart :: fn do\n    y := list.map\nend\n"),
+    ("use-std-preamble", "use preamble\nstart :: fn do end\n"),
+    ("use-std-as", "use math as m\nstart :: fn do\n    y := m.abs(1)\nend\n"),
+    ("from-std-missing", "from math use nope\nstart :: fn do end\n"),
+    ("from-std-use", "from list use (map, fold)\nstart :: fn do\n    y := map\nend\n"),
+    ("std-name-redef", "print :: fn do end\nstart :: fn do\n    print()\nend\n"),
+    ("std-name-redef-var", "push := 1\nstart :: fn do end\n"),
+    ("std-name-use", "start :: fn do\n    print(abs(-1))\nend\n"),
+    ("std-type-redef", "Maybe :: blob { x: int }\nstart :: fn do end\n"),
+    ("use-b-named-like-std", "use b as list\nuse list\nstart :: fn do end\n"),
+    ("blob-in-fn-shadowing-import", "from b use A\nstart :: fn do\n    A :: blob { f: int }\nend\n"),
+    ("enum-in-fn-shadowing-global", "A :: enum X end\nstart :: fn do\n    A :: enum Y end\nend\n"),
+    ("dup-start", "start :: fn do end\nstart :: fn do end\n"),
+    ("conflict-marker", "<<<<<<< HEAD\nx :: 1\n=======\nx :: 2\n>>>>>>> other\n"),
+    ("syntax-error-and-use", "use b\nx :: :: 1\nstart :: fn do end\n"),
+    ("type-error-and-use", "use b\nx: int = \"s\"\nstart :: fn do end\n"),
+];
+
+/// variants of module b ("-" = file absent)
+const MODS_B: &[(&str, &str)] = &[
+    ("absent", "-"),
+    ("plain", "x :: 1\nv := 1\nA :: blob { f: int }\n"),
+    ("empty", ""),
+    ("cycle-main", "use main\nx :: 1\nv := 1\nA :: blob { f: int }\n"),
+    ("cycle-from-main", "from main use start\nx :: 1\nv := 1\nA :: blob { f: int }\n"),
+    ("cycle-c", "use c\nx :: c.x\nv := 1\nA :: blob { f: int }\n"),
+    ("self", "use b\nx :: b.v\nv := 1\nA :: blob { f: int }\n"),
+    ("syntax-error", "x :: :: 1\nv := 1\n"),
+    ("type-error", "x :: 1 + \"s\"\nv := 1\nA :: blob { f: int }\n"),
+    ("dup-def", "x :: 1\nx :: 2\nv := 1\nA :: enum X end\n"),
+    ("conflict", "<<<<<<< HEAD\nx :: 1\n"),
+    ("uses-missing", "use nowhere\nx :: 1\nv := 1\nA :: blob { f: int }\n"),
+    ("value-cycle", "from main use start\nx :: y\ny :: x\nv := 1\nA :: blob { f: A }\n"),
+    ("c-ns", "use c\nx :: 1\nv := c\nA :: blob { f: c.A }\n"),
+];
+
+const MOD_C: &[(&str, &str)] = &[("absent", "-"), ("plain", "use b\nx :: 2\nA :: blob { g: int }\n")];
+
+fn gen_projects() -> Vec<Case> {
+    let mut out = Vec::new();
+    for (mt, main) in MAINS {
+        for (bt, b) in MODS_B {
+            // main files that never mention b are combined with two b variants only
+            let mentions_b = main.contains(" b") || main.contains("/b");
+            if !mentions_b && !(*bt == "absent" || *bt == "plain") {
+                continue;
+            }
+            for (ct, c) in MOD_C {
+                let needs_c = main.contains(" c") || b.contains(" c");
+                if !needs_c && *ct != "absent" {
+                    continue;
+                }
+                for no_std in [true, false] {
+                    let mut files = BTreeMap::new();
+                    files.insert("main.sy".to_string(), main.to_string());
+                    if *b != "-" {
+                        files.insert("b.sy".to_string(), b.to_string());
+                    }
+                    if *c != "-" {
+                        files.insert("c.sy".to_string(), c.to_string());
+                    }
+                    if *bt != "absent" {
+                        files.insert("sub/exports.sy".to_string(), "use /b\nuse d\nx :: b.x\n".to_string());
+                        files.insert("sub/d.sy".to_string(), "use /main as m\nuse b\nx :: 3\n".to_string());
+                    }
+                    let id = format!("proj:{}:b={}:c={}:{}", mt, bt, ct, if no_std { "nostd" } else { "std" });
+                    out.push(Case { id, kind: format!("proj:{}", mt), base: String::new(), files, main: "main.sy".into(), no_std, corpus: false });
+                }
+            }
+        }
+    }
+    // the main file itself is missing
+    for no_std in [true, false] {
+        out.push(Case {
+            id: format!("proj:main-missing:{}", if no_std { "nostd" } else { "std" }),
+            kind: "proj:main-missing".into(),
+            base: String::new(),
+            files: BTreeMap::new(),
+            main: "main.sy".into(),
+            no_std,
+            corpus: false,
+        });
+    }
+    out
+}
+
+// ------------------------------------------------------------------------------------------------
+// minimisation (delta debugging over tokens) and the construct skeleton used for signatures
+
+fn outcome_class(evs: &[Value]) -> String {
+    match evs.last().and_then(|e| e["e"].as_str()) {
+        Some("finish") => "ok".into(),
+        Some(e) => {
+            if evs.iter().any(|x| x["e"] == "render_panic") {
+                "render_panic".into()
+            } else {
+                e.to_string()
+            }
+        }
+        None => "none".into(),
+    }
+}
+
+/// "file:line" of a recorded panic text ("msg @ /path/file.rs:123" possibly wrapped in <<render panicked: ..>>)
+fn panic_site(pmsg: &str) -> String {
+    match pmsg.rfind(" @ ") {
+        Some(i) => pmsg[i + 3..].trim_end_matches('>').to_string(),
+        None => String::new(),
+    }
+}
+
+struct Minimiser {
+    class: String,
+    site: String,
+    corpus: Option<Corpus>,
+    scratch: PathBuf,
+    tests: usize,
+    budget: usize,
+    t0: Instant,
+}
+
+impl Minimiser {
+    fn run(&mut self, c: &Case) -> (String, String) {
+        self.tests += 1;
+        if self.class == "panic" || self.class == "render_panic" {
+            let p = project_of(c, self.corpus.as_ref());
+            let (evs, pmsg, _) = observe(&p, c.no_std);
+            (outcome_class(&evs), panic_site(&pmsg))
+        } else {
+            let path = self.scratch.join("min-case.ndjson");
+            write_ndjson(&path, &[c.clone()]);
+            let (recs, _) = run_isolated("cases", &path.to_string_lossy(), 1, 1, &self.scratch.join("min-w"), 1);
+            let evs = recs[0]["ev"].as_array().cloned().unwrap_or_default();
+            (outcome_class(&evs), String::new())
+        }
+    }
+    fn still_fails(&mut self, c: &Case) -> bool {
+        if self.tests >= self.budget || self.t0.elapsed() > Duration::from_secs(90) {
+            return false;
+        }
+        let (cl, site) = self.run(c);
+        cl == self.class && (self.site.is_empty() || site == self.site)
+    }
+}
+
+fn with_file(c: &Case, name: &str, text: String) -> Case {
+    let mut d = c.clone();
+    d.files.insert(name.to_string(), text);
+    d
+}
+
+fn ddmin_file(m: &mut Minimiser, c: &Case, name: &str) -> Case {
+    let text = c.files[name].clone();
+    let ps = match pieces(&text) {
+        Some(p) => p,
+        None => return c.clone(),
+    };
+    let mut cur: Vec<Piece> = ps.v;
+    let mut best = c.clone();
+    // the tail (blanks after the last token) is dropped first
+    let t = with_file(c, name, join(&cur));
+    if m.still_fails(&t) {
+        best = t;
+    } else {
+        return best;
+    }
+    let mut n = 2usize;
+    while cur.len() >= 1 {
+        let len = cur.len();
+        let chunk = (len + n - 1) / n;
+        let mut reduced = false;
+        let mut start = 0;
+        while start < len {
+            let end = (start + chunk).min(len);
+            let mut cand: Vec<Piece> = cur[..start].to_vec();
+            cand.extend(cur[end..].to_vec());
+            let t = with_file(c, name, join(&cand));
+            if m.still_fails(&t) {
+                cur = cand;
+                best = t;
+                n = (n - 1).max(2);
+                reduced = true;
+                break;
+            }
+            start = end;
+        }
+        if !reduced {
+            if chunk <= 1 {
+                break;
+            }
+            n = (n * 2).min(len);
+        }
+    }
+    // normal form: one space between tokens, newline tokens kept
+    let mut norm = cur.clone();
+    for (i, p) in norm.iter_mut().enumerate() {
+        let after_nl = i > 0 && matches!(cur[i - 1].tok, Token::Newline);
+        p.gap = if i == 0 || after_nl || matches!(p.tok, Token::Newline) { String::new() } else { " ".into() };
+    }
+    let t = with_file(c, name, join(&norm));
+    if m.still_fails(&t) {
+        best = t;
+    }
+    best
+}
+
+/// character-level pass for short texts: error tokens (unterminated strings) cannot be split by the token pass
+fn ddmin_chars(m: &mut Minimiser, c: &Case, name: &str) -> Case {
+    let mut cur: Vec<char> = c.files[name].chars().collect();
+    let mut best = c.clone();
+    if cur.len() > 400 {
+        return best;
+    }
+    let mut n = 2usize;
+    while !cur.is_empty() {
+        let len = cur.len();
+        let chunk = (len + n - 1) / n;
+        let mut reduced = false;
+        let mut start = 0;
+        while start < len {
+            let end = (start + chunk).min(len);
+            let cand: Vec<char> = cur[..start].iter().chain(cur[end..].iter()).cloned().collect();
+            let t = with_file(c, name, cand.iter().collect());
+            if m.still_fails(&t) {
+                cur = cand;
+                best = t;
+                n = (n - 1).max(2);
+                reduced = true;
+                break;
+            }
+            start = end;
+        }
+        if !reduced {
+            if chunk <= 1 {
+                break;
+            }
+            n = (n * 2).min(len);
+        }
+    }
+    best
+}
+
+fn canonical_name(k: usize, upper: bool) -> String {
+    let c = (b'a' + (k % 26) as u8) as char;
+    let s = if k < 26 { c.to_string() } else { format!("{}{}", c, k / 26) };
+    if upper {
+        s.to_uppercase()
+    } else {
+        s
+    }
+}
+
+/// rename identifiers / normalise literals as long as the failure persists
+fn canonicalise(m: &mut Minimiser, c: &Case) -> Case {
+    let mut best = c.clone();
+    let mut idents: Vec<String> = Vec::new();
+    for (_, text) in &c.files {
+        for pt in string_to_tokens(0, text) {
+            if let Token::Identifier(s) = pt.token {
+                if !idents.contains(&s) {
+                    idents.push(s);
+                }
+            }
+        }
+    }
+    let file_stems: Vec<String> = c.files.keys().map(|k| k.trim_end_matches(".sy").rsplit('/').next().unwrap_or("").to_string()).collect();
+    let rewrite = |case: &Case, f: &dyn Fn(&Piece) -> Option<String>| -> Case {
+        let mut d = case.clone();
+        for (name, text) in &case.files {
+            if let Some(ps) = pieces(text) {
+                let mut v = ps.v;
+                for p in v.iter_mut() {
+                    if let Some(t) = f(p) {
+                        p.text = t;
+                    }
+                }
+                d.files.insert(name.clone(), join(&v) + &ps.tail);
+            }
+        }
+        d
+    };
+    // literals
+    let t = rewrite(&best, &|p: &Piece| match p.tok {
+        Token::Int(_) => Some("1".into()),
+        Token::Float(_) => Some("1.0".into()),
+        Token::String(_) => Some("\"s\"".into()),
+        _ => None,
+    });
+    if m.still_fails(&t) {
+        best = t;
+    }
+    let (mut lo, mut up) = (0usize, 0usize);
+    for id in idents {
+        if file_stems.contains(&id) {
+            continue; // names of files stay
+        }
+        let upper = id.chars().next().map(|ch| ch.is_uppercase()).unwrap_or(false);
+        let mut target;
+        loop {
+            target = canonical_name(if upper { up } else { lo }, upper);
+            if upper {
+                up += 1
+            } else {
+                lo += 1
+            }
+            if !file_stems.contains(&target) {
+                break;
+            }
+        }
+        if target == id {
+            continue;
+        }
+        let idc = id.clone();
+        let tg = target.clone();
+        let t = rewrite(&best, &move |p: &Piece| match &p.tok {
+            Token::Identifier(s) if *s == idc => Some(tg.clone()),
+            _ => None,
+        });
+        if m.still_fails(&t) {
+            best = t;
+        }
+    }
+    best
+}
+
+fn skeleton(c: &Case) -> String {
+    let mut parts = Vec::new();
+    let mut names: Vec<&String> = c.files.keys().collect();
+    names.sort_by_key(|n| (**n != c.main, (*n).clone()));
+    for name in names {
+        let mut toks: Vec<String> = Vec::new();
+        let listed: Vec<(Token, String)> = match pieces(&c.files[name]) {
+            Some(ps) => ps.v.into_iter().map(|p| (p.tok, p.text)).collect(),
+            None => string_to_tokens(0, &c.files[name]).into_iter().map(|pt| { let d = format!("{:?}", pt.token); (pt.token, d) }).collect(),
+        };
+        for (tok, spelled) in listed.iter() {
+            let t = match tok {
+                Token::Identifier(s) => s.clone(),
+                Token::Int(_) => "1".into(),
+                Token::Float(_) => "1.0".into(),
+                Token::String(_) => "\"s\"".into(),
+                Token::Newline => ";".into(),
+                Token::Comment(_) | Token::EOF => continue,
+                Token::Error => "<err>".into(),
+                Token::Bool(b) => format!("{}", b),
+                Token::Nil => "nil".into(),
+                _ => ascii(spelled),
+            };
+            if t == ";" && toks.last().map(|l| l == ";").unwrap_or(true) {
+                continue;
+            }
+            toks.push(t);
+        }
+        while toks.last().map(|l| l == ";").unwrap_or(false) {
+            toks.pop();
+        }
+        let body = toks.join(" ");
+        parts.push(if c.files.len() > 1 || *name != "main.sy" { format!("{}: {}", name, body) } else { body });
+    }
+    if !c.files.contains_key(&c.main) {
+        parts.insert(0, format!("{}: <absent>", c.main));
+    }
+    format!("{}{}", parts.join(" || "), if c.no_std { " [no-std]" } else { " [std]" })
+}
+
+fn minimise(case_path: &str) {
+    let text = std::fs::read_to_string(case_path).unwrap_or_else(|e| tool_error(&format!("read {}: {}", case_path, e)));
+    let c: Case = serde_json::from_str(&text).unwrap_or_else(|e| tool_error(&format!("bad case json: {}", e)));
+    let scratch = PathBuf::from(case_path).with_extension("min.d");
+    let _ = std::fs::create_dir_all(&scratch);
+    // establish the failure through the isolated path (the only one that sees aborts and hangs)
+    let one = scratch.join("orig.ndjson");
+    write_ndjson(&one, &[c.clone()]);
+    let (recs, _) = run_isolated("cases", &one.to_string_lossy(), 1, 1, &scratch.join("w"), 1);
+    let evs = recs[0]["ev"].as_array().cloned().unwrap_or_default();
+    let class = outcome_class(&evs);
+    let pmsg = recs[0]["pmsg"].as_str().unwrap_or("").to_string();
+    let site = if class == "panic" || class == "render_panic" { panic_site(&pmsg) } else { String::new() };
+    let mut best = c.clone();
+    let mut tests = 0;
+    if class != "ok" && class != "timeout" {
+        let budget = if class == "abort" { 250 } else { 6000 };
+        let corpus = if c.corpus { Some(load_corpus()) } else { None };
+        let mut m = Minimiser { class: class.clone(), site: site.clone(), corpus, scratch: scratch.clone(), tests: 0, budget, t0: Instant::now() };
+        // 1. without the corpus tree underneath, 2. without std, 3. fewer files, 4. fewer tokens, 5. canonical names
+        if best.corpus {
+            let mut t = best.clone();
+            t.corpus = false;
+            if m.still_fails(&t) {
+                best = t;
+            }
+        }
+        if !best.no_std {
+            let mut t = best.clone();
+            t.no_std = true;
+            if m.still_fails(&t) {
+                best = t;
+            }
+        }
+        let names: Vec<String> = best.files.keys().cloned().collect();
+        let main_name = best.main.clone();
+        for name in names.iter().filter(|n| **n != main_name) {
+            let mut t = best.clone();
+            t.files.remove(name);
+            if m.still_fails(&t) {
+                best = t;
+            }
+        }
+        let mut names: Vec<String> = best.files.keys().cloned().collect();
+        names.sort_by_key(|n| *n != best.main);
+        for _round in 0..2 {
+            for name in &names {
+                if best.files.contains_key(name) {
+                    best = ddmin_file(&mut m, &best, name);
+                }
+            }
+        }
+        if !best.corpus {
+            best = canonicalise(&mut m, &best);
+        }
+        tests = m.tests;
+    }
+    let site_file = site.rsplit('/').next().unwrap_or("").split(':').next().unwrap_or("").to_string();
+    let out = json!({"class": class, "pmsg": pmsg, "site": site, "site_file": site_file, "tests": tests,
+                     "skeleton": skeleton(&best), "case": best});
+    println!("{}", serde_json::to_string(&out).unwrap());
+    let _ = std::fs::remove_dir_all(&scratch);
+}
+
+fn write_outputs(outdir: &str, name: &str, recs: &[Value], cases: Option<&[Case]>, stats: &RunStats, t0: Instant) {
+    let dir = PathBuf::from(outdir);
+    write_ndjson(&dir.join(format!("{}.trace.ndjson", name)), recs);
+    if let Some(cs) = cases {
+        write_ndjson(&dir.join(format!("{}.cases.ndjson", name)), cs);
+    }
+    let mut classes: BTreeMap<String, usize> = BTreeMap::new();
+    for r in recs {
+        *classes.entry(outcome_class(r["ev"].as_array().map(|v| v.as_slice()).unwrap_or(&[]))).or_insert(0) += 1;
+    }
+    println!(
+        "{}",
+        json!({"records": recs.len(), "suspected": stats.suspected, "timeouts": stats.timeouts, "aborts": stats.aborts,
+               "batches": stats.batches, "classes": classes, "wall_ms": t0.elapsed().as_millis() as u64})
+    );
+}
+
+fn main() {
+    let args: Vec<String> = std::env::args().collect();
+    if args.len() < 3 {
+        tool_error("usage: c07 run|worker|minimise ...");
+    }
+    let t0 = Instant::now();
+    match (args[1].as_str(), args[2].as_str()) {
+        ("worker", _) => {
+            let a = args.clone();
+            let h = std::thread::Builder::new()
+                .stack_size(512 << 20)
+                .spawn(move || worker(&a[2], &a[3], a[4].parse().unwrap(), a[5].parse().unwrap(), &a[6]))
+                .unwrap();
+            if h.join().is_err() {
+                std::process::exit(3);
+            }
+        }
+        ("minimise", p) => minimise(p),
+        ("run", u @ ("tok20" | "tok31")) => {
+            let maxlen: usize = args[3].parse().unwrap();
+            let total = num_token_strings(alphabet(u).len(), maxlen);
+            let first: usize = args[4].parse().unwrap();
+            let last: usize = args[5].parse::<usize>().unwrap().min(total);
+            let scratch = PathBuf::from(&args[6]).join(format!("{}.scratch", args[7]));
+            let (recs, stats) = run_isolated(u, "-", first, last, &scratch, 3000);
+            write_outputs(&args[6], &args[7], &recs, None, &stats, t0);
+            let _ = std::fs::remove_dir_all(&scratch);
+        }
+        ("run", u @ ("mut" | "proj" | "cases")) => {
+            let (cases, outdir, name): (Vec<Case>, &str, &str) = match u {
+                "mut" => (gen_mutations(args[3].parse().unwrap(), &load_corpus()), &args[4], &args[5]),
+                "proj" => (gen_projects(), &args[3], &args[4]),
+                _ => (read_ndjson(Path::new(&args[3])), &args[4], &args[5]),
+            };
+            if cases.is_empty() {
+                tool_error("no cases");
+            }
+            let cpath = PathBuf::from(outdir).join(format!("{}.cases.ndjson", name));
+            write_ndjson(&cpath, &cases);
+            let scratch = PathBuf::from(outdir).join(format!("{}.scratch", name));
+            let batch = (cases.len() / (vharness::pool::threads() * 6)).clamp(1, 60);
+            let (recs, stats) = run_isolated("cases", &cpath.to_string_lossy(), 1, cases.len(), &scratch, batch);
+            write_outputs(outdir, name, &recs, Some(&cases), &stats, t0);
+            let _ = std::fs::remove_dir_all(&scratch);
+        }
+        _ => tool_error("unknown mode"),
+    }
+}
